@@ -11,44 +11,81 @@ import ast
 from ..engine.srcmodel import AnalysisError, dotted, stmt_text, walk_local
 from ..engine.report import RuleResult
 from .common import finding
-from .c01_paths import numbering
+from .c01_paths import numbering, focus_frame
 from .rounding import builtin_round_sites, bound_symbols, half_up_helper
 
 
 def positional_args_rounded(f, res: RuleResult, rule: str, fn_name: str, helper: str) -> None:
-    """Names assigned from get_argument(index >= 1) must pass through the half-up helper."""
-    pos_names: dict[str, ast.AST] = {}
+    """
+    Each positional numeric argument (get_argument with index >= 1) must be passed through
+    the half-up helper on its own: forward taint 'p<k>' from each get_argument call (through
+    float()/int()/arithmetic); every helper call must receive a value that depends on exactly
+    one positional argument, and every positional argument must be rounded by some call.
+    """
+    from ..engine.cfg import CFG
+    from ..engine.taint import Taint, State
+
+    def index_of(c: ast.Call):
+        idx = None
+        if len(c.args) > 1 and isinstance(c.args[1], ast.Constant):
+            idx = c.args[1].value
+        for k in c.keywords:
+            if k.arg == 'index' and isinstance(k.value, ast.Constant):
+                idx = k.value.value
+        return idx
+    srcs = {}
     for n in walk_local(f.node):
-        if isinstance(n, (ast.Assign, ast.AnnAssign)) and isinstance(n.value, ast.Call) \
-                and dotted(n.value.func).endswith('get_argument'):
-            c = n.value
-            idx = None
-            if len(c.args) > 1 and isinstance(c.args[1], ast.Constant):
-                idx = c.args[1].value
-            for k in c.keywords:
-                if k.arg == 'index' and isinstance(k.value, ast.Constant):
-                    idx = k.value.value
+        if isinstance(n, ast.Call) and dotted(n.func).endswith('get_argument'):
+            idx = index_of(n)
             if isinstance(idx, int) and idx >= 1:
-                tg = n.targets[0] if isinstance(n, ast.Assign) else n.target
-                if isinstance(tg, ast.Name):
-                    pos_names[tg.id] = n
-    rounded = set()
-    for n in walk_local(f.node):
-        if isinstance(n, ast.Call) and dotted(n.func).split('.')[-1] == helper:
-            for a in n.args:
-                for x in ast.walk(a):
-                    if isinstance(x, ast.Name):
-                        rounded.add(x.id)
-    if not pos_names:
+                srcs[id(n)] = f'p{idx}'
+    if not srcs:
         raise AnalysisError(f'{f.key}: no positional get_argument found')
-    for name, node in sorted(pos_names.items()):
-        res.instances.append(f'{f.key}: positional argument {name} '
-                             f'{"rounded with " + helper if name in rounded else "NOT rounded"}')
-        if name in rounded:
+    cfg = CFG(f.node)
+
+    def expr_taint(e: ast.AST, st: State, nd) -> set:
+        if isinstance(e, ast.Call):
+            if id(e) in srcs:
+                return {srcs[id(e)]}
+            last = dotted(e.func).split('.')[-1]
+            if last in ('float', 'int', 'Decimal', 'abs', 'cast', helper, 'max', 'min'):
+                out: set = set()
+                for a in e.args:
+                    out |= T.value_taint(a, st, nd)
+                return out
+            return set()
+        if isinstance(e, ast.BinOp):
+            return T.value_taint(e.left, st, nd) | T.value_taint(e.right, st, nd)
+        if isinstance(e, ast.UnaryOp):
+            return T.value_taint(e.operand, st, nd)
+        return set()
+
+    T = Taint.__new__(Taint)
+    T.cfg, T.expr_taint, T.iter_taint, T.state_in = cfg, expr_taint, lambda e, st, nd: set(), {}
+    T._run()
+    rounded_alone: set = set()
+    for nd in cfg.nodes:
+        st = T.at(nd)
+        for x in nd.walk():
+            if isinstance(x, ast.Call) and dotted(x.func).split('.')[-1] == helper and x.args:
+                kinds = {k for k in T.value_taint(x.args[0], st, nd) if k.startswith('p')}
+                res.instances.append(f'{f.key}: {helper}({stmt_text(x.args[0])[:30]}) depends on '
+                                     f'{sorted(kinds)}')
+                if len(kinds) == 1:
+                    rounded_alone |= kinds
+                    res.ok()
+                elif len(kinds) > 1:
+                    res.fail(finding(rule, f, x, f'{helper} of combined arguments',
+                                     f'fn:{fn_name}: `{stmt_text(x)[:50]}` rounds a value computed '
+                                     f'from {sorted(kinds)} together; F&O rounds each argument '
+                                     f'separately (round(a) + round(b) differs from round(a + b) '
+                                     f'when both are fractional)'))
+    for k in sorted(set(srcs.values())):
+        if k in rounded_alone:
             res.ok()
         else:
-            res.fail(finding(rule, f, node, f'{name} not rounded half-up',
-                             f'fn:{fn_name}: the positional argument `{name}` is not passed '
+            res.fail(finding(rule, f, f.node, f'argument {k[1:]} not rounded half-up',
+                             f'fn:{fn_name}: argument {int(k[1:]) + 1} is never passed on its own '
                              f'through {helper}(): F&O defines it with fn:round (ties towards '
                              f'positive infinity)'))
 
@@ -61,7 +98,9 @@ def run(ctx) -> dict:
         'XPathToken.select_with_focus (the focus that filter predicates, position() and last() '
         'observe) materialises its operand, sets context.size to the length of that list and '
         'numbers the items 1..n in order (enumerate(results, start=1) or an equivalent '
-        'recognised idiom).')
+        'recognised idiom); the outer focus (item, size, position, axis) is saved before and '
+        'restored on the normal exit, each attribute from its own saved value (R01.1 applied to '
+        'this function).')
     base = model.find_class('XPathToken').methods.get('select_with_focus')
     if base is None:
         raise AnalysisError('XPathToken.select_with_focus vanished')
@@ -91,7 +130,8 @@ def run(ctx) -> dict:
         r1.fail(finding('R08.1', base, base.node, 'materialise',
                         'the operand is no longer materialised before numbering: last() cannot '
                         'be known while iterating'))
-    # the predicate compares a numeric predicate with context.position
+    # the focus is saved before and restored (attribute by attribute, same order) after
+    focus_frame(base, base.params()[1], r1)
     counts['select_with_focus'] = 1
 
     r2 = RuleResult(
@@ -104,11 +144,11 @@ def run(ctx) -> dict:
     fs = [f for f, s_ in bound.items() if 'subsequence' in s_]
     if len(fs) != 1:
         raise AnalysisError(f'fn:subsequence: expected one implementation, found {len(fs)}')
-    positional_args_rounded(fs[0], r2, 'R08.2', 'subsequence', 'round_number')
     for f, call in builtin_round_sites(model):
         if f is fs[0]:
             r2.fail(finding('R08.2', f, call, 'round()',
                             'fn:subsequence uses the builtin half-to-even round()'))
+    positional_args_rounded(fs[0], r2, 'R08.2', 'subsequence', 'round_number')
     counts['subsequence_impl'] = len(fs)
     return {
         'results': [r1, r2], 'counts': counts,
